@@ -76,7 +76,7 @@ class ReduceCapacity:
             state.factors.append((token, factor))
             # Grants already handed out stay with their holders; set_capacity
             # keeps available == capacity - held (possibly negative for a while).
-            resource.set_capacity(state.effective())
+            resource._apply_capacity(state.effective())
             logger.info(
                 "[FaultInjection] Reduced '%s' capacity to %.1f (factor=%.2f) at %s",
                 resource_name,
@@ -90,7 +90,7 @@ class ReduceCapacity:
             if state is None:
                 return
             state.factors = [(t, f) for t, f in state.factors if t is not token]
-            resource.set_capacity(state.effective())
+            resource._apply_capacity(state.effective())
             if not state.factors:
                 resource._injected_capacity = None
             logger.info(
